@@ -56,6 +56,7 @@ func ProfileByName(name string) *Profile {
 		p.DebugPct = 15
 		p.StatsPct = 30
 		p.MemoPred = 10
+		p.NotShare = 8
 		p.ScanPct = 35
 		p.W[KOpt] = 12
 		p.W[KRef] = 22
